@@ -19,6 +19,17 @@ CHECKS = {
             "reference DER encoder in the harness (hand-written, no encoding/asn1) is the specification",
         ],
     },
+    "C01": {
+        "level": "fault_enumeration",
+        "units": [
+            unit("c01-root", "root", ["zz_verif_c01_test.go"], "^TestVerifC01",
+                 shards={"quick": 8, "thorough": 16}),
+        ],
+        "assumptions": [
+            "credentials are minted by the harness with the issuer trapdoor (so the signed values are known); signing itself is C05/C06",
+            "strong-RSA-breaking adversaries and alterations of three or more independent fields are out of reach of enumeration",
+        ],
+    },
     "_FIX": {
         "level": "other",
         "units": [unit("genfix", "root", [], "^TestVerifGenFixtures$", env={"VERIF_GENFIX": "1"}, timeout=1800)],
